@@ -21,3 +21,13 @@ package capacity
 //@   attr effect:fs.rename
 //@ func upgradeMassDBFile$1
 //@   attr effect:fs.rename
+
+// ---- loading at start-up (C11): a plot file is indexed only if its name parses, the wallet owns the key under that
+// ordinal, it is not indexed yet, and the opened DB carries the key and bit length of the name
+//@ func generateInitialIndex
+//@   assert-at call NewWorkSpace identity-from-file-name-and-wallet: exists && dbIndex == ordinal && arg1 == dbDir && arg2 == ordinal && arg3 == pubKey && arg4 == bitLength && !ok
+//@   assert-at call addWorkSpaceToIndex only-verified-unindexed-plots: exists && dbIndex == ordinal && !ok && err == nil && arg1 == ws
+
+//@ func NewWorkSpace
+//@   assert-at return#4 opened-db-has-the-requested-key: lastEq
+//@   ensures state-from-progress: err == nil ==> result0 != nil && (result0.state == 0 || result0.state == 2) && result0.rootDir == rootDir
